@@ -275,7 +275,7 @@ class DimArray(AbstractDimArray, OpMixin, GetSetDelAttrMixin):
             axes = dim_array.axes
 
         elif values is not None:
-            values = np.array(values, copy=copy, dtype=dtype)
+            values = np.array(values, copy=True, dtype=dtype) if copy else np.asarray(values, dtype=dtype)
 
         #
         # Initialize the axes
